@@ -173,6 +173,20 @@ PROPS = {
         "assumptions": ["cache timing is over-approximated in the model by a nondeterministic evict step enabled iff cleaning is enabled",
                         "the model's atomic step is one storage-manager call (single task)"],
     },
+    "C13": {
+        "thm_module": ["AkdModel.Thm.C13"],
+        "theorems": ["Akd.C13." + t for t in ["snapshot_read", "resolve_current", "resolve_lag1", "write_preserves", "write_new",
+                                              "write_frame", "lag2_witness"]],
+        "streams": ["l1.dir.c13"],
+        "rule": "histories with a label updated in every epoch; four read-only instances (own cached storage manager with a 2 ms "
+                "item lifetime over the shared database) are re-pinned in rotation so that at any time their cached epoch record "
+                "lags storage by 0, 1, 2 and 3 effective epochs; after every publish each of them serves epoch hash, lookups, "
+                "complete and most-recent histories and audits; every answer is compared with the model (a directory whose epoch "
+                "record is pinned while node records advance) and judged by the oracle: error, or an (epoch, root hash) pair the "
+                "writer really published for that epoch together with a proof that verifies against it",
+        "assumptions": ["interleavings of a reader with a commit at storage-operation granularity are not yet explored by this check "
+                        "(sequential lag only)"],
+    },
     "C14": {
         "thm_module": ["AkdModel.Thm.C01b", "AkdModel.Thm.C01a"],
         "theorems": ["Akd.C01.batchInsert_perm", "Akd.C01.batchInsert_refines", "Akd.C01.ofLeaves_perm", "Akd.C01.wf_unique"],
